@@ -285,7 +285,7 @@ func runFaulted(c *core.Case, eng Engine, st *memstore.Store, faults []core.Faul
 		r := qry.Exec(ctx)
 		done <- oracle.FromResult(r)
 	}()
-	lastProgress, lastTotal := time.Now(), -1
+	lastProgress, lastTotal, lastTick := time.Now(), -1, time.Now()
 	tick := time.NewTicker(500 * time.Millisecond)
 wait:
 	for {
@@ -295,6 +295,21 @@ wait:
 			out.returned = true
 			break wait
 		case <-tick.C:
+			// the result may have arrived together with the tick (select picks at random)
+			select {
+			case r := <-done:
+				out.res = r
+				out.returned = true
+				break wait
+			default:
+			}
+			now := time.Now()
+			if now.Sub(lastTick) > 2*time.Second {
+				// this goroutine itself was not scheduled for seconds: the machine (or the
+				// process) stalled, which says nothing about the query
+				lastProgress = now
+			}
+			lastTick = now
 			if _, total := sess.Counts(); total != lastTotal {
 				lastTotal, lastProgress = total, time.Now()
 			}
